@@ -349,6 +349,56 @@ def url_of(cfg):
     return 'http://localhost/dash/%s/bbb/%s%s' % (mode, t, ('?' + '&'.join(q)) if q else '')
 
 
+TREQS, TMETA = [], []
+
+
+def tolerance_facts(ctx, url, cl, dv):
+    """the tolerance each MediaSegment was given, against ValidatorModel.tol_template / tol_timeline evaluated on the
+    attributes of the manifest document the validator received (read here with lxml, not through the validator)"""
+    from lxml import etree
+    if not cl.manifests:
+        return
+    try:
+        doc = etree.fromstring(cl.manifests[-1])
+    except Exception:  # noqa
+        return
+    ns = {'d': 'urn:mpeg:dash:schema:mpd:2011'}
+    by_id = {}
+    for pe in doc.findall('d:Period', ns):
+        for ae in pe.findall('d:AdaptationSet', ns):
+            for re_ in ae.findall('d:Representation', ns):
+                by_id[(pe.get('id'), re_.get('id'))] = (ae, re_)
+    try:
+        periods = list(dv.manifest.periods)
+    except Exception:  # noqa
+        return
+    for p in periods:
+        for a in p.adaptation_sets:
+            for r in a.representations:
+                mss = list(getattr(r, 'media_segments', []) or [])
+                pair = by_id.get((p.id, r.id))
+                if not mss or pair is None:
+                    continue
+                ae, re_ = pair
+                fr = re_.get('frameRate') or ae.get('maxFrameRate') or ae.get('minFrameRate') or '24'
+                num, _, den = fr.partition('/')
+                num, den = int(num), int(den or 1)
+                tmpl = re_.find('d:SegmentTemplate', ns)
+                if tmpl is None:
+                    tmpl = ae.find('d:SegmentTemplate', ns)
+                if tmpl is None or num <= 0 or den <= 0:
+                    continue
+                timeline = tmpl.find('d:SegmentTimeline', ns) is not None
+                ts = int(tmpl.get('timescale', '1'))
+                ctype = ae.get('contentType') or ''      # the validator looks at AdaptationSet@contentType only (not at mimeType)
+                audio = 1 if ctype == 'audio' else 0
+                for idx, ms in list(enumerate(mss))[:4]:
+                    TREQS.append([-2, 1 if timeline else 0, ts, num, den, idx, audio])
+                    TMETA.append(({'session': url, 'period': p.id, 'representation': r.id, 'index': idx, 'frameRate': fr,
+                                   'timescale': ts, 'timeline': timeline, 'audio': bool(audio)}, int(ms.tolerance)))
+                    ctx.dist('tolerance:%s:%s' % ('timeline' if timeline else 'template', 'audio' if audio else ctype or 'other'))
+
+
 def pristine_suite(ctx, env):
     from ..appenv import Clock, utc
     reqs, meta = [], []
@@ -382,6 +432,7 @@ def pristine_suite(ctx, env):
             except Exception:  # noqa
                 pass
         validated = [(a, r, ms) for a, r, ms in segs if getattr(ms, 'validated', False) and ms.url in cl.seen]
+        tolerance_facts(ctx, url, cl, dv)
         if validated:
             ctx.nontriv(('pristine', url))
         ctx.dist('pristine:segments-validated:%d' % min(len(validated) // 5 * 5, 50))
@@ -630,7 +681,7 @@ def run(ctx):
     env = AppEnv(ctx.workdir, streams=('bbb',))
     logging.disable(logging.CRITICAL)
     env.add_mps('mps1', [dict(pid='p1', stream='bbb', start_s=0, duration_s=20), dict(pid='p2', stream='bbb', start_s=8, duration_s=16)])
-    del MREQS[:], MMETA[:]
+    del MREQS[:], MMETA[:], TREQS[:], TMETA[:]
     reqs1, meta1 = pristine_suite(ctx, env)
     reqs2, meta2 = corruption_suite(ctx, env)
     manifest_corruptions(ctx, env)
@@ -654,6 +705,14 @@ def run(ctx):
             ok = False
             ctx.disagree('manifest verdict', inp, want, got)
     ctx.oblige('correspondence:DashValidator(manifest checks)-vs-ValidatorModel.manifest_errors', ok)
+    res = common.run_model_parallel(18, TREQS)
+    ok = True
+    for (inp, got), want in zip(TMETA, res):
+        ctx.count('corr:tolerance')
+        if want != got:
+            ok = False
+            ctx.disagree('decode-time tolerance', inp, want, got)
+    ctx.oblige('correspondence:Representation.generate_segments*(tolerance)-vs-ValidatorModel.tol_*', ok and bool(TREQS))
     env.close()
 
 
